@@ -144,13 +144,15 @@ def plan_for(ctx, n):
         # all (c, D) merge-base questions, all fast-forward pairs, every set in two orders for octopus /
         # independent; walks: all (include set, exclude set) pairs in the thorough tier
         return dict(full=True, full_mb=not ctx.quick, both_modes=True, n_mbm=8, n_oct=0, n_ind=0, full_walk=not ctx.quick,
-                    topo_frac=0.25, n_walk=10, n_walkopt=5, p_model=0.004, p_cover=ctx.pick(0.25, 1.0), n_cover=ctx.pick(2, 4))
+                    topo_frac=0.25, n_walk=10, n_walkopt=5, p_model=0.004, p_cover=ctx.pick(0.25, 1.0), n_cover=ctx.pick(2, 4),
+                    p_porcelain=ctx.pick(0.5, 1.0), n_porcelain=ctx.pick(1, 3))
     if n == 5:
         return dict(full=False, both_modes=False, n_mbm=4, n_oct=3, n_ind=2, full_walk=False,
                     n_walk=4, n_walkopt=2, topo_frac=0.5, p_model=0.0005 if not ctx.quick else 0.004,
-                    p_cover=ctx.pick(0.25, 0.05), n_cover=2)
+                    p_cover=ctx.pick(0.25, 0.05), n_cover=2, p_porcelain=ctx.pick(0.5, 0.1), n_porcelain=1)
     return dict(full=False, both_modes=False, n_mbm=6, n_oct=4, n_ind=3, full_walk=False,
-                n_walk=6, n_walkopt=3, topo_frac=0.5, p_model=0.001, p_cover=0.05, n_cover=2)
+                n_walk=6, n_walkopt=3, topo_frac=0.5, p_model=0.001, p_cover=0.05, n_cover=2,
+                p_porcelain=0.1, n_porcelain=1)
 
 
 def replay_dump(ctx, pool, n, dump, label, budget_s):
@@ -165,7 +167,7 @@ def replay_dump(ctx, pool, n, dump, label, budget_s):
         cs = sorted(cs)
         for i in range(0, len(cs), 48):           # at most 48 clocks of one DAG per task
             tasks.append(dict(n=n, par=p, table=tables[p], cases=cs[i:i + 48], plan=plan, seed=ctx.seed, first=(i == 0),
-                              deadline=t0 + budget_s))
+                              deadline=t0 + budget_s, refs_dir=ctx.scratch))
     ctx.rng.shuffle(tasks)
     ncase = sum(len(cs) for cs in cases.values())
     chunk = max(1, min(32, len(tasks) // (PROCS * 16)))
@@ -340,6 +342,24 @@ def run_random(task):
         return out
 
     qs = ask(h)
+    if disk_root:
+        # --- the porcelain wrappers (and the command line) on the real repository: a branch at every
+        #     tip and at a few other commits
+        tips = [c for c in range(1, n + 1) if not any(c in p for p in par)]
+        L.set_branches(h, sorted(set(tips) | {rng.randint(1, n) for _ in range(6)}))
+        for c in rng.sample(h.branches, min(4, len(h.branches))):
+            qs.append(L.q_pm(h, c))
+        for _ in range(4):
+            qs.append(L.q_pc(h, rng.randint(1, n)))
+            qs.append(L.q_pa(h, rng.randint(1, n), rng.randint(1, n)))
+            s_ = pick(rng.randint(2, 3))
+            if len(s_) >= 2:
+                rng.shuffle(s_)
+                qs.append(L.q_pb(h, s_, octopus=rng.randrange(2), all_=rng.choice((1, 1, 0))))
+                qs.append(L.q_pi(h, s_))
+            qs.append(L.q_pr(h, pick(rng.randint(1, 2))))
+        if task.get("cli"):
+            qs += cli_branch_queries(disk_root, h, rng)
     nmiss = 0
     budget_m = 6
     for q in qs:
@@ -360,9 +380,6 @@ def run_random(task):
         # --- C git as third opinion on the same objects
         import shutil
         have_git = shutil.which("git") is not None
-        tips = [c for c in range(1, n + 1) if not any(c in p for p in par)]
-        for c in tips:
-            repo.refs[b"refs/heads/t%d" % c] = h.ids[c - 1]
         g = GitOracle(disk_root, h)
         ng = 0
         for q in qs:
@@ -408,6 +425,9 @@ def run_random(task):
                 h2.__dict__.update(h.__dict__)
                 h2.repo = r2
                 qs2 = ask(h2)
+                for c in rng.sample(h2.branches, min(2, len(h2.branches))):
+                    qs2.append(L.q_pm(h2, c))
+                qs2.append(L.q_pc(h2, rng.choice(cover)))
                 if kind:
                     # questions across the boundary: every covered commit against commits outside
                     inside, outside = set(cover), [c for c in full if c not in cover]
@@ -437,6 +457,25 @@ def run_random(task):
         repo.close()
     res["records"] = recs
     return res
+
+
+def cli_branch_queries(root, h, rng):
+    """`dulwich branch --merged / --no-merged / --contains` as a user would run them."""
+    import sys
+    head = rng.choice(h.branches)
+    h.repo.refs.set_symbolic_ref(b"HEAD", b"refs/heads/c%d" % head)
+
+    def run(*args):
+        p = subprocess.run([sys.executable, "-m", "dulwich", "branch", *args], cwd=root, capture_output=True)
+        if p.returncode != 0:
+            return [-1]
+        return L._bn(x.strip() for x in p.stdout.split() if x.strip())
+    q = {"k": "pm", "h": head, "s": list(h.branches), "m": 0, "g": [], "cli": 1,
+         "r": run("--merged"), "nr": run("--no-merged")}
+    a = rng.randint(1, h.n)
+    q2 = {"k": "pc", "a": a, "s": list(h.branches), "m": 0, "g": [], "cli": 1,
+          "r": run("--contains", h.ids[a - 1].decode())}
+    return [q, q2]
 
 
 def write_commit_graph_file(root, repo, h, par, writer, cover):
@@ -521,7 +560,8 @@ def judge(ctx, records, usemin, reduce, label):
     for i, r in enumerate(records):
         r["tid"] = i + 1
     # many chunks of roughly equal cost (bytes x history size), pulled by a pool of single-worker TLC runs
-    keep = ("k", "a", "b", "d", "s", "i", "e", "topo", "rev", "since", "until", "max", "r", "base", "m", "g")
+    keep = ("k", "a", "b", "d", "s", "i", "e", "topo", "rev", "since", "until", "max", "r", "base", "m", "g",
+            "h", "nr", "oct", "all")
     lines = []
     for r in records:
         o = {"tid": r["tid"], "par": r["par"], "ts": r["ts"], "rank": r["rank"], "cg": r.get("cg") or [],
@@ -601,7 +641,8 @@ def report(ctx, judged):
             cg = f"commit-graph={cg},{'octopus-merge-in-history' if octo else 'no-octopus-merge'}"
         if r.get("cuts"):
             cg = (cg + "," if cg else "") + "shallow-or-graft-view"
-        key = (L.SITES[q["k"]], clause, detail, clock, how, cg)
+        site = L.SITES[q["k"]] if not q.get("cli") else "dulwich/cli.py:branch"
+        key = (site, clause, detail, clock, how, cg)
         s, size = L.describe(r["par"], r["ts"], q)
         if r.get("cg"):         # extent of the commit-graph, in the numbering of the printed case
             keep = L.relevant(r["par"], q)
@@ -739,6 +780,7 @@ def run(ctx):
             if i < ndisk:
                 t["n"] = min(n, 60)
                 t["disk"] = os.path.join(d, f"disk{i}")
+                t["cli"] = i < ctx.pick(4, 30)
             tasks.append(t)
         t0 = time.time()
         big = {"histories": 0, "queries": 0, "mismatch": 0, "git": 0, "cg": 0, "cg_skipped": []}
@@ -843,9 +885,18 @@ def replay(ctx, path):
         q2 = L.q_oct(h, q["s"])
     elif k == "ind":
         q2 = L.q_ind(h, q["s"])
+    elif k in ("pm", "pc", "pa", "pb", "pi", "pr"):
+        if not on_disk:
+            L.use_disk_refs(h, os.path.join(d, "refs"))
+        if k in ("pm", "pc"):
+            L.set_branches(h, q["s"])
+            print(f"branches refs/heads/c<n> at commits {q['s']}" + (" (recorded through the command line; replayed through porcelain)" if q.get("cli") else ""))
+        q2 = {"pm": lambda: L.q_pm(h, q["h"]), "pc": lambda: L.q_pc(h, q["a"]), "pa": lambda: L.q_pa(h, q["a"], q["b"]),
+              "pb": lambda: L.q_pb(h, q["s"], q["oct"], q["all"]), "pi": lambda: L.q_pi(h, q["s"]),
+              "pr": lambda: L.q_pr(h, q["i"])}[k]()
     else:
         q2 = L.q_walk(h, q["i"], q["e"], q["topo"], q["rev"], q["since"], q["until"], q["max"])
-    q2["m"] = 1
+    q2["m"] = 1 if k in ("mb", "ff", "oct", "ind", "walk") else 0
     ex = L.Expect(len(par), par, ts, None, anc=L.table_from_par(par))
     q2["pre"] = 1 if ex.check(q2)[0] else 0
     print("history: commit -> parents, timestamp level, id")
